@@ -44,7 +44,8 @@ static void usage(int status) {
 
 static bool take_arg(char *arg) {
   char *x[] = {
-    "-o", "-I", "-idirafter", "-include", "-x", "-MF", "-MT", "-Xlinker",
+    "-o", "-I", "-idirafter", "-include", "-x", "-MF", "-MT", "-MQ", "-Xlinker",
+    "-D", "-U",
   };
 
   for (int i = 0; i < sizeof(x) / sizeof(*x); i++)
